@@ -99,12 +99,16 @@ Fixpoint padd_loop (a : poly) : poly -> poly :=
 (* __add__ with a Polynomial other *)
 Definition padd (p q : poly) : poly :=
   if peq_Z q 0 then p                 (* if other == 0: return self *)
+  else if peq_Z p 0 then q            (* if self == 0: return other *)
   else padd_loop p q.
 
 (* __add__ (and __radd__) with an int other *)
 Definition padd_Z (p : poly) (c : Z) : poly :=
-  if c =? 0 then p
-  else padd_loop p (P_of_Z c).        (* other = self.__class__(other) *)
+  if c =? 0 then p                    (* if other == 0: return self *)
+  else
+    let other := P_of_Z c in          (* other = self.__class__(other) *)
+    if peq_Z p 0 then other           (* if self == 0: return other *)
+    else padd_loop p other.
 
 (* the inner while loop of __mul__ on the variables of the two monomials: take ea when eb is None or
    ea < eb, otherwise (also when ea == eb, and when ea is None) take eb *)
